@@ -48,7 +48,7 @@ Definition enc_core (m : amodel) : jval :=
   JList [enc_ostr (a_id m); enc_ostr (a_name m); JList (map enc_met_nocomp (a_mets m));
          JList (map enc_rxn (a_rxns m)); JList (map enc_gene (a_genes m)); JDict (a_notes m); JDict (a_annot m)].
 Definition enc_comps (m : amodel) : jval :=
-  JList [JList (map (fun x => enc_ostr (m_comp x)) (a_mets m)); JDict (dsort (public_comps m))].
+  JList [JList (map (fun x => enc_ostr (m_comp x)) (a_mets m)); comps_val (dsort (public_comps m))].
 
 Definition sort_model (m : amodel) : amodel :=
   mkModel (a_id m) (a_name m) (sort_by m_id (a_mets m)) (sort_by r_id (a_rxns m)) (sort_by g_id (a_genes m))
